@@ -701,3 +701,388 @@ RULES = {
     "C04": "N in 1..8 tagged well-formed exchanges (unique ids in URI and response header), message-wise legal interleavings (a response is "
            "offered only after the whole request it answers), random chunkings; distinct = distinct final dumps",
 }
+
+
+# ================================================================================================ C10
+
+def c10_scripts(ctx):
+    """every data call is followed by a dump so that what is retained BETWEEN calls can be examined"""
+    rng = ctx.rng
+    n = 260 if ctx.tier == "quick" else 2500
+    out, meta = [], []
+    for _ in range(n):
+        hard = rng.choice((1, 2, 17, 100, 100, 18000))
+        maxtx = rng.choice((0, 0, 1, 2, 5))
+        kind = rng.choice(("longline", "folds", "repeats", "manytx", "mixed", "chunkline", "resline"))
+        R = b""
+        S = b""
+        if kind == "longline":
+            R = b"GET /" + b"a" * rng.choice((hard - 8, hard, hard + 1, hard * 2 + 3, 50)) + b" HTTP/1.1\r\nHost: h\r\n\r\n"
+            S = b"HTTP/1.1 200 " + b"r" * rng.choice((hard, hard + 5, 10)) + b"\r\nContent-Length: 0\r\n\r\n"
+        elif kind == "folds":
+            k = rng.choice((1, 3, 40, 300))
+            R = b"GET / HTTP/1.1\r\nHost: h\r\nX-F: a" + b"".join(b"\r\n " + b"f" * rng.randint(1, 30) for _ in range(k)) + b"\r\n\r\n"
+            S = b"HTTP/1.1 200 OK\r\nX-F: a" + b"".join(b"\r\n\t" + b"g" * rng.randint(1, 30) for _ in range(k)) + b"\r\nContent-Length: 0\r\n\r\n"
+        elif kind == "repeats":
+            k = rng.choice((2, 10, 70, 200))
+            R = b"GET / HTTP/1.1\r\nHost: h\r\n" + b"".join(rng.choice((b"X-R", b"x-r", b"X-Q")) + b": v%d\r\n" % i for i in range(k)) + b"\r\n"
+            S = b"HTTP/1.1 200 OK\r\n" + b"".join(b"Set-X: c%d\r\n" % i for i in range(k)) + b"Content-Length: 0\r\n\r\n"
+        elif kind == "manytx":
+            k = rng.randint(1, 12)
+            R = b"".join(b"GET /%d HTTP/1.1\r\nHost: h\r\n\r\n" % i for i in range(k))
+            S = b"".join(b"HTTP/1.1 200 OK\r\nContent-Length: 1\r\n\r\nx" for i in range(rng.randint(0, k)))
+        elif kind == "chunkline":
+            R = b"POST / HTTP/1.1\r\nHost: h\r\nTransfer-Encoding: chunked\r\n\r\n" + b"0" * rng.choice((1, hard, hard + 2)) + b"3;ext=" + \
+                b"e" * rng.choice((1, hard + 1)) + b"\r\nabc\r\n0\r\n\r\n"
+            S = b"HTTP/1.1 200 OK\r\nTransfer-Encoding: chunked\r\n\r\n" + b" " * rng.choice((0, hard + 3)) + b"3\r\nabc\r\n0\r\n\r\n"
+        elif kind == "resline":
+            R = b"GET / HTTP/1.1\r\nHost: h\r\n\r\n"
+            S = b"HTTP/1.1 200 OK\r\nX-L: " + b"v" * rng.choice((hard - 6, hard + 1, 3 * hard)) + b"\r\nContent-Length: 0\r\n\r\n"
+        else:
+            reqs, ress, rq, rs = traffic.gen_exchange(rng, opts=OPTS)
+            R, S = traffic.mutate(b"".join(rq), rng), traffic.mutate(b"".join(rs), rng)
+        rp = traffic.chunkings(R, rng, rng.choice(("rand", "rand", "bytes", ("cut", rng.randint(1, max(1, len(R) - 1))))))
+        sp = traffic.chunkings(S, rng, rng.choice(("rand", "rand", "bytes", "whole")))
+        if len(rp) + len(sp) > 400:
+            rp = traffic.chunkings(R, rng, "rand"); sp = traffic.chunkings(S, rng, "rand")
+        cfg = "respdecomp=0,hard=%d,soft=%d" % (hard, max(hard // 2, 1)) + (",maxtx=%d" % maxtx if maxtx else "")
+        sc = ["conn new %s -" % cfg, "conn open"]
+        for p in rp:
+            sc += ["conn req " + traffic.hx(p), "conn dump"]
+        for p in sp:
+            sc += ["conn res " + traffic.hx(p), "conn dump"]
+        sc += ["conn close", "conn dump", "conn destroy"]
+        out.append(sc)
+        meta.append({"hard": hard, "maxtx": maxtx, "kind": kind})
+    return out, meta
+
+
+MAX_REPS = 64
+MAX_FOLDED = 102400
+
+
+def make_c10_oracle(by_id):
+    def oracle(sc, outs):
+        w = by_id.get(id(sc))
+        if not w:
+            return []
+        found = []
+        last_rc = {"req": None, "res": None}
+        for line, out in zip(sc, outs):
+            t = line.split(" ")
+            if t[1] in ("req", "res"):
+                c = cl.parse_single(out)
+                last_rc[t[1]] = c.rc if c else None
+            if t[1] != "dump":
+                continue
+            g, slots = cl.parse_dump(out)
+            for side, key, hk in (("req", "in_buf", "in_hdr"), ("res", "out_buf", "out_hdr")):
+                v = g.get(key)
+                if v not in (None, "~") and int(v) > w["hard"]:
+                    found.append(("retained-over-hard", "%s=%s bytes retained between calls with field_limit_hard=%d" % (key, v, w["hard"])))
+                hv = g.get(hk)
+                if hv not in (None, "~") and int(hv) > MAX_FOLDED + w["hard"] + 70000:
+                    found.append(("folded-over-cap", "%s=%s" % (hk, hv)))
+            if w["maxtx"] and int(g["ntx"]) > w["maxtx"] + 1:
+                found.append(("over-max-tx", "%s transactions held with max_tx=%d" % (g["ntx"], w["maxtx"])))
+            for t_ in slots:
+                if t_ and (int(t_["rep"]) > MAX_REPS or int(t_["srep"]) > MAX_REPS):
+                    found.append(("over-repetitions", "repetition counters %s/%s" % (t_["rep"], t_["srep"])))
+        return found
+    return oracle
+
+
+def c10_steady_state(ctx):
+    """harness-only: live heap after every 100 transactions with auto-destroy, logging off and htp_connp_tx_freed()"""
+    n = 1000 if ctx.tier == "quick" else 10000
+    sc = ["conn new respdecomp=0,autodestroy=1,log=0 -", "conn open"]
+    req = traffic.hx(b"GET /steady?a=1 HTTP/1.1\r\nHost: h\r\nX-A: b\r\nCookie: c=d\r\n\r\n")
+    res = traffic.hx(b"HTTP/1.1 200 OK\r\nContent-Length: 5\r\nX-B: c\r\n\r\nhello")
+    for i in range(n):
+        sc += ["conn req " + req, "conn res " + res, "conn txfreed"]
+        if i % 100 == 99:
+            sc.append("conn mem")
+    sc += ["conn close", "conn destroy"]
+    co, ce, rc = lib.run_c(ctx.corr, sc)
+    mems = [int(o[4:]) for l, o in zip(sc, co) if l == "conn mem" and o.startswith("mem=")]
+    found = []
+    if rc != 0 or len(mems) < 3:
+        found.append(("steady-run-failed", "harness rc=%s, %d samples" % (rc, len(mems))))
+    elif mems[-1] > mems[1]:
+        found.append(("memory-grows", "live heap %d bytes after 200 transactions, %d after %d" % (mems[1], mems[-1], n)))
+    return found, {"steady_state_transactions": n, "steady_state_live_heap_samples": mems[:3] + mems[-2:]}
+
+
+RULES["C10"] = ("hard limit in {1,2,17,100,18000} x max_tx in {0,1,2,5} x families (long request/status/header lines around the limit, "
+                "k folded lines, k repeated names, k pipelined transactions, long chunk-size lines, mutated exchanges) x chunkings, with a dump of "
+                "the private sizes after EVERY call; plus a 1000/10000-transaction steady-state run measuring the live heap; distinct = distinct final dumps")
+
+
+# ================================================================================================ C03
+
+MULTI_PACKET_HEAD = 0x800
+
+
+def canonical_run(sc, outs):
+    """what C03 compares between two chunkings: the dump (multi-packet-head indicator masked) and the merged callback sequence"""
+    g, slots = cl.final_dump(sc, outs)
+    txs = []
+    for t in slots or []:
+        if t is None:
+            txs.append(None)
+            continue
+        d = dict(t)
+        d["flags"] = str(int(d["flags"]) & ~MULTI_PACKET_HEAD)
+        txs.append(tuple(sorted(d.items())))
+    evs = []
+    rawdata = {}      # raw header/trailer data per (hook, tx): compared as byte streams, not as positions in the sequence
+    open_idx = {}     # (hook, tx) -> index of the data event still open for merging (several data hooks may interleave)
+    for e in cl.all_events(sc, outs):
+        raw = e.name.endswith("_header_data") or e.name.endswith("_trailer_data")
+        if raw:
+            if e.kind == "bytes":
+                rawdata[(e.name, e.tx)] = rawdata.get((e.name, e.tx), b"") + e.data
+            continue
+        if e.kind == "bytes":
+            if len(e.data) == 0:
+                continue
+            key = (e.name, e.tx)
+            if key in open_idx:
+                i = open_idx[key]
+                evs[i] = (e.name, e.tx, "bytes", evs[i][3] + e.data, evs[i][4], evs[i][5])
+                continue
+            open_idx[key] = len(evs)
+            evs.append((e.name, e.tx, "bytes", e.data, e.rp, e.sp))
+        else:
+            open_idx = {}
+            evs.append((e.name, e.tx, e.kind, e.data, e.rp, e.sp))
+    evs.append(("raw", tuple(sorted(rawdata.items()))))
+    head = None
+    if g:
+        head = tuple((k, g[k]) for k in ("ntx", "in_state", "out_state", "in_status", "out_status", "conn_flags", "in_ctr", "out_ctr"))
+    # raw data events: concatenate per (hook, tx)
+    return head, tuple(txs), tuple(evs)
+
+
+def res_cut_labels(S, starts, k):
+    """known-finding classes of a cut position k in the response stream (pieces S[:k] | S[k:])"""
+    labels = set()
+    for i, st in enumerate(starts):
+        if i == 0:
+            continue
+        eol = S.find(b"\r\n", st)
+        if st < k < eol + 2:
+            labels.add("S14")
+    if 2 <= k < len(S) and S[k - 2:k] == b"\r\n" and S[k:k + 1] in (b" ", b"\t"):
+        labels.add("S15")
+    if 1 <= k and S[k - 1:k] == b"\r" and S[k:k + 2] == b"\n\r":
+        labels.add("S1")
+    return labels
+
+
+def c03_scripts(ctx):
+    rng = ctx.rng
+    nex = 14 if ctx.tier == "quick" else 120
+    out, meta = [], []
+    opts = {"folding": True, "repeat": True, "urlenc_bodies": True, "close_delimited": True}
+    for ei in range(nex):
+        reqs, ress, rq, rs = traffic.gen_exchange(rng, n=rng.choice((1, 2, 3)), opts=opts)
+        R, S = b"".join(rq), b"".join(rs)
+        starts = [sum(len(x) for x in rs[:i]) for i in range(len(rs))]
+        cfg = rng.choice(("respdecomp=0,urlenc=1", "p=IDS,respdecomp=0,urlenc=1", "p=APACHE_2,respdecomp=0"))
+        base = traffic.script(cfg, "-", [">" + traffic.hx(R), "<" + traffic.hx(S)])
+        group = {"base": base, "variants": []}
+        variants = []
+        # every single cut of each stream (exhaustive for this exchange)
+        for k in range(1, len(R)):
+            variants.append(([R[:k], R[k:]], [S], set()))
+        for k in range(1, len(S)):
+            variants.append(([R], [S[:k], S[k:]], res_cut_labels(S, starts, k)))
+        # 1-byte and random multi-cuts
+        allres = set()
+        for k in range(1, len(S)):
+            allres |= res_cut_labels(S, starts, k)
+        variants.append(([R[i:i + 1] for i in range(len(R))], [S], set()))
+        variants.append(([R], [S[i:i + 1] for i in range(len(S))], allres))
+        for _ in range(6):
+            rp = traffic.chunkings(R, rng, "rand")
+            sp = traffic.chunkings(S, rng, "rand")
+            labs = set()
+            pos = 0
+            for p in sp[:-1]:
+                pos += len(p)
+                labs |= res_cut_labels(S, starts, pos)
+            variants.append((rp, sp, labs))
+        out.append(base)
+        meta.append({"role": "base", "gid": ei})
+        for rp, sp, labs in variants:
+            sc = traffic.script(cfg, "-", [">" + traffic.hx(p) for p in rp] + ["<" + traffic.hx(p) for p in sp])
+            out.append(sc)
+            meta.append({"role": "variant", "gid": ei, "labels": labs, "ncuts": len(rp) + len(sp) - 2})
+    return out, meta
+
+
+RULES["C03"] = ("well-formed exchanges from the grammar (folding, repetition, C-L / chunked / close-delimited bodies, urlencoded bodies, 1..3 "
+                "pipelined) each delivered whole, with EVERY single cut of the request stream, EVERY single cut of the response stream, "
+                "1-byte chunks and random multi-cuts; canonical dump + merged callback sequence compared with the whole-delivery run on the "
+                "implementation; distinct = distinct canonical runs")
+
+
+# ================================================================================================ C02
+
+def expected_headers(headers):
+    """ground truth of the header table: wire order; a name repeated (case-insensitively) is combined with ', ' onto its first
+    occurrence (Content-Length excepted: later instances are dropped); folded lines are joined with the fold's own LWS"""
+    out = []
+    for name, pieces in headers:
+        value = pieces[0]
+        for p in pieces[1:]:
+            value += b" " + p          # the generator folds with CRLF SP
+        value = value.strip(b" \t")
+        for i, (n, v) in enumerate(out):
+            if n.lower() == name.lower():
+                if name.lower() != b"content-length":
+                    out[i] = (n, v + b", " + value)
+                break
+        else:
+            out.append((name, value))
+    return out
+
+
+def c02_scripts(ctx):
+    rng = ctx.rng
+    n = 500 if ctx.tier == "quick" else 5000
+    out, meta = [], []
+    opts = {"folding": True, "repeat": True, "urlenc_bodies": True, "close_delimited": True}
+    for _ in range(n):
+        reqs, ress, rq, rs = traffic.gen_exchange(rng, opts=opts)
+        R, S = b"".join(rq), b"".join(rs)
+        cfg = rng.choice(("respdecomp=0,urlenc=1", "p=IDS,respdecomp=0,urlenc=1", "p=APACHE_2,respdecomp=0,urlenc=1", "p=IIS_7_5,respdecomp=0,urlenc=1",
+                          "p=GENERIC,respdecomp=0,urlenc=1"))
+        out.append(traffic.script(cfg, "-", [">" + traffic.hx(R), "<" + traffic.hx(S)]))
+        meta.append({"reqs": reqs, "ress": ress})
+    return out, meta
+
+
+def make_c02_oracle(by_id):
+    def oracle(sc, outs):
+        w = by_id.get(id(sc))
+        if not w:
+            return []
+        g, slots = cl.final_dump(sc, outs)
+        found = []
+        if not slots or len(slots) != len(w["reqs"]):
+            return [("tx-count", "%d transactions for %d exchanges" % (len(slots or []), len(w["reqs"])))]
+        for i, (rq, rs, t) in enumerate(zip(w["reqs"], w["ress"], slots)):
+            def chk(field, got, want):
+                if got != want:
+                    found.append(("field:" + field, "tx %d %s: reported %r, on the wire %r" % (i, field, got[:80] if isinstance(got, bytes) else got,
+                                                                                              want[:80] if isinstance(want, bytes) else want)))
+            chk("method", cl.unhx(t["m"]), rq.method)
+            chk("uri", cl.unhx(t["uri"]), rq.target)
+            chk("protocol", cl.unhx(t["proto"]), rq.version)
+            chk("request_headers", [(n, v) for n, v, f in cl.headers_of(t, "rh")], expected_headers(rq.headers + getattr(rq, "trailers", [])))
+            chk("status", int(t["sn"]), rs.status)
+            chk("reason", cl.unhx(t["msg"]), rs.reason)
+            chk("response_protocol", cl.unhx(t["sproto"]), rs.version)
+            got_sh = [(n, v) for n, v, f in cl.headers_of(t, "sh")]
+            if got_sh != expected_headers(rs.headers):
+                colon_fold = rs.version == b"HTTP/1.1" and any(b":" in p for n, ps in rs.headers for p in ps[1:])
+                found.append(("S33" if colon_fold else "field:response_headers",
+                              "tx %d response headers: reported %r, on the wire %r" % (i, got_sh[:6], expected_headers(rs.headers)[:6])))
+            # host and port
+            hosts = [p[0] for n, p in rq.headers if n.lower() == b"host"]
+            if rq.target.startswith(b"http://"):
+                auth = rq.target[7:].split(b"/", 1)[0]
+            elif hosts:
+                auth = hosts[0]
+            else:
+                auth = None
+            if auth is not None:
+                h, _, p = auth.partition(b":")
+                chk("hostname", cl.unhx(t["host"]) if t["host"] != "~" else None, h.lower() if rq.target.startswith(b"http://") or not p else h)
+                chk("port", int(t["port"]), int(p) if p else -1)
+            # cookies, credentials
+            cks = [p[0] for n, p in rq.headers if n.lower() == b"cookie"]
+            if cks:
+                want = [tuple(c.split(b"=", 1)) for c in cks[0].split(b"; ")]
+                got = [tuple(cl.unhx(x) for x in kv.split("=")) for kv in t["cookies"].split(",")] if t["cookies"] not in ("~", "") else []
+                chk("cookies", got, want)
+            au = [p[0] for n, p in rq.headers if n.lower() == b"authorization"]
+            if au:
+                import base64
+                u, _, pw = base64.b64decode(au[0][6:]).partition(b":")
+                a = t["auth"].split(":")
+                chk("credentials", (cl.unhx(a[1]), cl.unhx(a[2])), (u, pw))
+            # query parameters (the generator uses unreserved characters and %-free tokens: decoding is the identity except '+')
+            if b"?" in rq.target and t["params"] != "":
+                q = rq.target.split(b"?", 1)[1]
+                want = []
+                for piece in q.split(b"&"):
+                    k, _, v = piece.partition(b"=")
+                    want.append((k, v))
+                got = [(cl.unhx(x.split("=")[0]), cl.unhx(x.split("=")[1].split("@")[0])) for x in t["params"].split(",") if x.endswith("@1")]
+                if not any(b"%" in k + v or b"+" in k + v for k, v in want):
+                    chk("query_params", got, want)
+        return found
+    return oracle
+
+
+RULES["C02"] = ("well-formed exchanges from the grammar (known and unknown first methods, origin/absolute targets, 0..k headers with optional "
+                "obs-fold and repetition, cookies, Basic credentials, C-L / chunked (+trailers) / close-delimited / empty bodies, 1..6 pipelined) "
+                "x 5 personalities, whole delivery; every reported field compared with the generator's ground truth; distinct = distinct final dumps")
+
+
+# ================================================================================================ C19
+
+def c19_scripts(ctx):
+    """K connections created from ONE configuration, their calls interleaved call by call on one thread; each connection's
+    solo run is included as its own script so that outputs can be compared"""
+    rng = ctx.rng
+    n = 120 if ctx.tier == "quick" else 1200
+    out, meta = [], []
+    for gi in range(n):
+        K = rng.randint(2, 8)
+        cfg = rng.choice(("respdecomp=0", "p=IDS,respdecomp=0,urlenc=1", "p=APACHE_2,respdecomp=0", "respdecomp=0,autodestroy=1"))
+        per = []
+        for k in range(K):
+            reqs, ress, rq, rs = traffic.gen_exchange(rng, opts=OPTS)
+            R, S = b"".join(rq), b"".join(rs)
+            if rng.random() < 0.4:
+                R = traffic.mutate(R, rng)
+            if rng.random() < 0.4:
+                S = traffic.mutate(S, rng)
+            ops = ["req " + traffic.hx(p) for p in traffic.chunkings(R, rng, "rand")] + ["res " + traffic.hx(p) for p in traffic.chunkings(S, rng, "rand")]
+            pol = traffic.rand_policy(rng) if rng.random() < 0.3 else "-"
+            per.append((pol, ops))
+        # solo scripts
+        solos = []
+        for k, (pol, ops) in enumerate(per):
+            sc = ["conn new %s %s" % (cfg, pol), "conn open"] + ["conn " + o for o in ops] + ["conn close", "conn dump", "conn destroy"]
+            out.append(sc)
+            meta.append({"role": "solo", "gid": gi, "k": k})
+        # interleaved script
+        sc = []
+        for k, (pol, ops) in enumerate(per):
+            sc += ["conn@%d new %s %s" % (k + 1, cfg, pol), "conn@%d open" % (k + 1)]
+        idx = [0] * K
+        order = []
+        while any(idx[k] < len(per[k][1]) for k in range(K)):
+            k = rng.choice([k for k in range(K) if idx[k] < len(per[k][1])])
+            sc.append("conn@%d %s" % (k + 1, per[k][1][idx[k]]))
+            order.append(k)
+            idx[k] += 1
+        ks = list(range(K))
+        rng.shuffle(ks)
+        for k in ks:
+            sc += ["conn@%d close" % (k + 1), "conn@%d dump" % (k + 1)]
+        for k in ks:
+            sc.append("conn@%d destroy" % (k + 1))
+        out.append(sc)
+        meta.append({"role": "interleaved", "gid": gi, "K": K})
+    return out, meta
+
+
+RULES["C19"] = ("2..8 connection parsers created from one shared configuration (harness keeps one htp_cfg_t per cfgspec), mutated/structured "
+                "traffic and callback policies per connection, calls interleaved call-by-call in random order; every connection's outputs must "
+                "equal those of its solo run; distinct = distinct per-connection result sequences")
